@@ -253,7 +253,15 @@ fn drive<S: Shape>(c: &AnCase<S>, ops: &[Op], acc: &mut Acc, stream: u64, hidx: 
     if m.current_state() != b.current_state() || !same_all(m.current_values(), b.current_values()) || m.is_ended() != b.is_ended() {
         acc.violation(
             "c16:initial",
-            format!("initial state/values {:?}/{:?} differ from the builder reading {:?}/{:?}", m.current_state(), m.current_values().vals(), b.current_state(), b.current_values().vals()),
+            format!(
+                "initial state/values/is_ended {:?}/{:?}/{} differ from the builder reading {:?}/{:?}/{}",
+                m.current_state(),
+                m.current_values().vals(),
+                m.is_ended(),
+                b.current_state(),
+                b.current_values().vals(),
+                b.is_ended()
+            ),
             case(0, "initial state and values"),
         );
         return false;
